@@ -78,7 +78,7 @@ func c08Run(s *c08Scn, version, segName string) verdict {
 				switch s.Policy[k-1] {
 				case "now", "werr":
 					out = append(out, frame(r.MsgID, k))
-				case "late":
+				case "late", "lateecho":
 					held = frame(r.MsgID, k)
 				}
 			} else {
@@ -116,6 +116,10 @@ func c08Run(s *c08Scn, version, segName string) verdict {
 				kind = 0 // Lock takes no per-operation options
 			}
 		}
+
+		sess.pipe.Lock()
+		sess.srv.HoldEcho = s.Policy[j] == "lateecho"
+		sess.pipe.Unlock()
 
 		if s.Policy[j] == "werr" {
 			// the framed message goes out, the write of the return after it fails (1.1: the last of the two returns)
